@@ -236,6 +236,9 @@ func exhUndirected(c *vrt.Ctx) {
 			checkDistance(k, m, r, reps)
 			checkDistance(k, mw, r, reps)
 			checkLaplacians(k, m, r, reps)
+			if i%2 == 0 {
+				checkLaplacians(k, mw, r, []Rep{pickRep(i + 1)})
+			}
 			if n == 6 {
 				gamma := gammas[i%4]
 				mm := m
@@ -361,6 +364,9 @@ func rndSpectral(c *vrt.Ctx) {
 		k := newK(c, wl, fmt.Sprintf("%s/%d", wl, i))
 		k.ids = assignIDs(m, r, r.Intn(4))
 		checkLaplacians(k, m, r, []Rep{pickRep(i)})
+		if i%3 == 1 {
+			checkLaplacians(k, reweight(m, r, 1+r.Intn(3)), r, []Rep{pickRep(i + 1)})
+		}
 		checkDiffusion(k, m, r, pickRep(i+1))
 		k.done()
 	})
